@@ -387,6 +387,10 @@ func (e *c10RootExec) Check(o *mc.Outcome) []Viol {
 	if e.OutsideChanged != "" {
 		vs = append(vs, Viol{"C10|mkdir-outside-target|from-root", e.OutsideChanged})
 	}
+	if e.TreeChanged != "" {
+		// simple mode leaves the caller's tree as it was; so must massive mode
+		vs = append(vs, Viol{"C10|callers-tree-changed|" + e.d.Op, fmt.Sprintf("driver %s: %s", e.d, e.TreeChanged)})
+	}
 	return vs
 }
 
